@@ -540,7 +540,7 @@ static U64Vec g_un, g_bin;
 static void ph_un(void *u) {
     for (size_t i = 0; i < g_un.n; i++) {
         if (!mc_mine(i)) continue;
-        if ((i & 63) == 0 && mc_expired()) return;
+        if (mc_tick(63)) return;
         mc_states(1);
         MC_RUN(OP_UN, H(g_un.v[i]));
     }
@@ -561,7 +561,7 @@ static void ph_dbl(void *u) {
             for (int k = 0; k < nd; k += 3)
                 for (int l = 0; l < nd; l += 4, idx++) {
                     if (!mc_mine(idx)) continue;
-                    if ((idx & 255) == 0 && mc_expired()) return;
+                    if (mc_tick(255)) return;
                     MC_RUN(OP_DBL, D(dbl[i]), D(dbl[j]), D(dbl[k]), D(dbl[l]));
                     if ((k == 0 || k == 9 || k == 18) && (l == 4 || l == 12)) MC_RUN(OP_DBLPOLY, D(dbl[i]), D(dbl[j]), D(dbl[k]), D(dbl[l]));
                 }
@@ -615,7 +615,7 @@ static void ph_seq_collect(void *u) {
     sink = &outs;
     for (size_t i = 0; i < g_un.n; i++) {
         if (!mc_mine(i)) continue;
-        if ((i & 63) == 0 && mc_expired()) break;
+        if (mc_tick(63)) break;
         MC_RUN(OP_UN, H(g_un.v[i]));
         if (i < g_bin.n)
             for (size_t j = 0; j < g_bin.n; j += 7) MC_RUN(OP_BIN, H(g_un.v[i]), H(g_bin.v[j]), I(j % 16 == 0));
